@@ -212,6 +212,12 @@ def run_special_outputs_case(ctx, res):
             res.failures.append({'kind': 'training-did-not-complete-after-failed-evaluation', 'signature': sig, 'input': info,
                                  'observed': err})
         else:
+            # a failed evaluation must not corrupt the cost accounts of the evaluations that succeeded
+            bad_costs = [('model_costs', list(k), float(v)) for k, v in comp.model_costs.items() if not np.isfinite(v)] + \
+                        [('misc_costs', list(a) + list(b), float(v)) for a, b, v in comp.misc_costs if not np.isfinite(v)]
+            if bad_costs:
+                res.failures.append({'kind': 'cost-accounts-not-finite-after-failed-evaluation', 'signature': sig, 'input': info,
+                                     'observed': bad_costs[:6]})
             try:
                 y = comp.predict({'x': np.array([0.3, 0.77])})['y']
                 if not np.all(np.isfinite(y)):
